@@ -80,3 +80,64 @@ def targeted(rng):
 
 
 TEMPLATES_C02 = [fanout, targeted, waitfan]
+
+
+def irflow(rng):
+    """start sends n T1 -> `b_ask` (k workers, gated) RETURNS an InputRequiredEvent subclass (IR) ->
+    nobody consumes IR inside the workflow (boundary event) ; external HR(k=j) responses -> `c_answer`
+    (accepts HR, gated) returns T2 -> `d_gather` collects n T2 -> Stop."""
+    n = rng.choice([1, 2, 3, 4])
+    k = rng.choice([1, 2, 3])
+    spec = dict(steps={
+        "a_start": dict(accepts=[StartEvent], returns=[T1, type(None)], num_workers=1,
+                        script=[("send", T1, n, None), ("return", None)]),
+        "b_ask": dict(accepts=[T1], returns=[IR], num_workers=k, script=[("gate", "w"), ("return", IR)]),
+        "c_answer": dict(accepts=[HR], returns=[T2], num_workers=rng.choice([1, 2]),
+                         script=[("gate", "c"), ("return", T2)]),
+        "d_gather": dict(accepts=[T2], returns=[StopEvent, type(None)], num_workers=1,
+                         script=[("collect", [T2] * n, None), ("return", StopEvent)]),
+    })
+
+    def mk(i):
+        def f(handler, rec):
+            rec.ev("external", ev="HR", k=i)
+            handler.ctx.send_event(HR(k=i))
+        f.label = "HR(k=%d)" % i
+        return f
+
+    return spec, [mk(i) for i in range(1, n + 1)], dict(policy=rng.choice(["random", "lifo", "fifo"]))
+
+
+def sendnone(rng):
+    """C03b shape: `a_start` sends n T1 with ctx.send_event and returns None; `b_work` (k workers, gated, may fail
+    and retry with a delay) returns T2; `c_gather` collects n T2 -> Stop.  After a_start finishes the reducer state
+    is quiet while the sent events are still in the run's mailbox."""
+    n = rng.choice([1, 2, 3])
+    fail = rng.choice([0, 1, 2])
+    delay = rng.choice([0, 0.5, 2.0])
+    pol = rp.retry_policy(wait=rp.wait_fixed(delay), stop=rp.stop_after_attempt(4)) if fail else None
+    work = ([("fail_until", fail, "value")] if fail else []) + [("gate", "w"), ("return", T2)]
+    spec = dict(steps={
+        "a_start": dict(accepts=[StartEvent], returns=[T1, type(None)], num_workers=1,
+                        script=[("send", T1, n, None), ("return", None)]),
+        "b_work": dict(accepts=[T1], returns=[T2], num_workers=rng.choice([1, 2]), policy=pol, script=work),
+        "c_gather": dict(accepts=[T2], returns=[StopEvent, type(None)], num_workers=1,
+                         script=[("collect", [T2] * n, None), ("return", StopEvent)]),
+    })
+    spec["retry_delay"] = delay if fail else None
+    return spec, [], dict(policy=rng.choice(["random", "lifo", "fifo"]))
+
+
+def retrychain(rng):
+    """start -> `b_work` fails `fail` times with a retry delay, then returns Stop. Nothing else is pending while
+    the retry waits out its delay (C03a shape)."""
+    fail = rng.choice([1, 2, 3])
+    delay = rng.choice([0.5, 1.0, 3.0])
+    pol = rp.retry_policy(wait=rp.wait_fixed(delay), stop=rp.stop_after_attempt(5))
+    spec = dict(steps={
+        "a_start": dict(accepts=[StartEvent], returns=[T1], num_workers=1, script=[("return", T1)]),
+        "b_work": dict(accepts=[T1], returns=[StopEvent], num_workers=1, policy=pol,
+                       script=[("fail_until", fail, "value"), ("return", StopEvent)]),
+    })
+    spec["retry_delay"] = delay
+    return spec, [], dict(policy="random")
